@@ -164,7 +164,7 @@ def raw_equiv_quoted(t1: str, t2: str, q1: bool, q2: bool) -> bool:
 
 def conditions(tier):
     quick = tier == "quick"
-    t = 90 if quick else 600
+    t = 90 if quick else 400
     conds = []
     for n in range(0, (4 if quick else 6) + 1):
         conds.append({"name": "total[len=%d]" % n, "fn": total, "timeout": t, "part": {"n": n},
